@@ -93,6 +93,7 @@ func c19Exec(c *core.Ctx, cs c19Case) {
 		c.Eval(1)
 		c.Count("calls/Eval", 1)
 		if err != nil {
+			_ = err.Error()
 			if _, ok := err.(interp.ArithExprError); !ok {
 				c.Count("note/Eval-error-of-undocumented-type", 1)
 			}
@@ -129,11 +130,23 @@ func c19Exec(c *core.Ctx, cs c19Case) {
 		_ = n.Pos()
 		_ = n.End()
 		nodes++
+		// Fprint of the node on its own: commands, lists, words, word parts are
+		// printable, every other node type must come back as an error
+		for _, ci := range []int{0, 255, int(c.Index()) % 256} {
+			cfg := cfgOf(ci)
+			if err := cfg.Fprint(io.Discard, n); err != nil {
+				_ = err.Error()
+				c.Count("note/Fprint-unsupported-node", 1)
+			}
+		}
 	}, func(w ast.Word) { words = append(words, w) }, 0)
 	for _, cm := range comments {
 		_ = cm.Pos()
 		_ = cm.End()
+		cfg := cfgOf(int(c.Index()) % 256)
+		_ = cfg.Fprint(io.Discard, cm)
 	}
+	c.Count("calls/Fprint-node", 3*nodes+len(comments))
 	c.Eval(nodes)
 	c.Count("calls/Pos+End", nodes)
 	// Fprint under every Config
@@ -174,7 +187,9 @@ func c19Exec(c *core.Ctx, cs c19Case) {
 					env.Set("y", "\xff")
 					env.Args = append(env.Args, "\xffq\xff")
 				}
-				_, _ = env.Expand(w, interp.ExpMode(m))
+				if _, err := env.Expand(w, interp.ExpMode(m)); err != nil {
+					_ = err.Error()
+				}
 				c.Eval(1)
 			}
 		}
@@ -189,7 +204,9 @@ func c19Exec(c *core.Ctx, cs c19Case) {
 			if m%3 == 0 {
 				env.Opts |= interp.NoUnset
 			}
-			_, _ = env.Expand(w, interp.ExpMode(m))
+			if _, err := env.Expand(w, interp.ExpMode(m)); err != nil {
+				_ = err.Error()
+			}
 			c.Eval(1)
 		}
 	}
@@ -264,7 +281,7 @@ func init() {
 		ID:          "C19",
 		Level:       "exploration",
 		Technique:   "runtime monitoring: panic / process-death monitor in isolated workers over the downstream entry points (Pos/End of every node, Fprint under the 256 Configs, Expand under all 32 mode combinations x NoGlob, Eval, Match, Glob, Option.String), fed with every accepted input of the C01 corpora; both panicnil settings",
-		Rule:        "cases: every string of <=3 tokens of the C01 alphabet (blank-joined and glued), every string of <=4 (thorough <=5) significant characters, 1500 (thorough 30000) generated programs and 12 byte mutations of each — each accepted one is walked (Pos/End of every node), printed under all 256 Configs (every 5th for long sources) and every word expanded under 32 modes x NoGlob on/off (two positional parameters; hostile IFS / values with invalid UTF-8 in a quarter of them) and under 32 modes with no / one empty positional parameter; Eval on every string of <=3 (thorough <=4) symbols of a 24-symbol arithmetic alphabet, Match (16 mode values x 7 subjects) and Glob on every string of <=3 (thorough <=4) symbols of a 16-symbol pattern alphabet incl. an invalid UTF-8 byte, random byte strings, and all 2^14 Option values. distinct_nontrivial = distinct accepted sources with >=3 nodes.",
+		Rule:        "cases: every string of <=3 tokens of the C01 alphabet (blank-joined and glued), every string of <=4 (thorough <=5) significant characters, 1500 (thorough 30000) generated programs and 12 byte mutations of each — each accepted one is walked (Pos/End of every node, Fprint of every node on its own under 3 Configs, Error() of every error returned), printed under all 256 Configs (every 5th for long sources) and every word expanded under 32 modes x NoGlob on/off (two positional parameters; hostile IFS / values with invalid UTF-8 in a quarter of them) and under 32 modes with no / one empty positional parameter; Eval on every string of <=3 (thorough <=4) symbols of a 24-symbol arithmetic alphabet, Match (16 mode values x 7 subjects) and Glob on every string of <=3 (thorough <=4) symbols of a 16-symbol pattern alphabet incl. an invalid UTF-8 byte, random byte strings, and all 2^14 Option values. distinct_nontrivial = distinct accepted sources with >=3 nodes.",
 		Assumptions: []string{"absence of panic is the oracle; error values of undocumented type are counted as notes"},
 		GoDebug:     []string{"panicnil=0", "panicnil=1"},
 		Gen:         c19Gen,
